@@ -1,11 +1,12 @@
 (** C18 — Rust's stable [sort_by] on slices of at most 20 elements
     (core::slice::sort::stable: [insertion_sort_shift_left(v, 1, is_less)]), transcribed, and
-    [brute_force_knn] with the comparator of mod.rs l.192,
+    [brute_force_knn] with the comparator of mod.rs on distances that may be NaN ([None]):
 
-        results.sort_by(|a, b| a.1.partial_cmp(&b.1).unwrap_or(Equal)),
+        NOW (c04d862):     results.sort_by(|a, b| cmp_distance(a.1, b.1))      -- NaN last, total: [lt_of]
+        BEFORE (`_pre`):   results.sort_by(|a, b| a.1.partial_cmp(&b.1).unwrap_or(Equal))       : [lt_pc]
 
-    on distances that may be NaN ([None]).  With a comparator that is not a total order the
-    outcome depends on the algorithm, hence the transcription.  No proofs in this file.
+    With a comparator that is not a total order the outcome depends on the algorithm, hence the
+    transcription.  No proofs in this file.
 
       for i in 1..len:  insert_tail(v[..=i]):
           tmp = v[i];  j = i;  while j > 0 && is_less(tmp, v[j-1]) { v[j] = v[j-1]; j -= 1 };  v[j] = tmp
@@ -26,11 +27,10 @@ Section SmallSort.
 End SmallSort.
 
 (** a distance is [None] when it is NaN, otherwise an order-preserving integer image of the f32 *)
-(** [compare(a,b) == Less] for compare = partial_cmp(..).unwrap_or(Equal) *)
+(** BEFORE c04d862: [compare(a,b) == Less] for compare = partial_cmp(..).unwrap_or(Equal) *)
 Definition lt_pc (a b : option Z) : bool :=
   match a, b with Some x, Some y => x <? y | _, _ => false end.
-(** the same for OrderedFloat's total order (NaN greatest): what the comparator would be after the
-    proposed repair, and what it IS on NaN-free inputs *)
+(** NOW: [cmp_distance(a,b) == Less] — increasing, NaN after every number (OrderedFloat's order) *)
 Definition lt_of (a b : option Z) : bool :=
   match a, b with Some x, Some y => x <? y | Some _, None => true | None, _ => false end.
 Definition leb_of (a b : option Z) : bool := negb (lt_of b a).
